@@ -1,7 +1,7 @@
 (* C02 - non-model loaders and dumpers implement exactly the documented per-type rules.
    Statements only; proofs in Proofs/LoadProofs.v, Proofs/TableProofs.v (loaders) and Proofs/DumpProofs.v (dumpers). *)
 From Coq Require Import List ZArith Bool String.
-From AV Require Import Model.Val Model.Load Proofs.LoadProofs Proofs.TableProofs.
+From AV Require Import Model.Val Model.Load Model.Dump Proofs.LoadProofs Proofs.TableProofs Proofs.DumpProofs.
 From AV Require Import Generated.AbcToImpl.
 Import ListNotations.
 
@@ -65,3 +65,11 @@ Theorem C02_mapping_is_dict :
   lookup "MutableMapping" (map (fun p => (fst p, [snd p])) abc_proxies) = ["dict"%string].
 Proof. exact mapping_abcs_are_loaded_as_dict. Qed.
 Print Assumptions C02_mapping_is_dict.
+
+(* the union dumper: ClassDispatcher picks the entry of the nearest ancestor in the MRO of the runtime class *)
+Theorem C02_dispatch_nearest_ancestor : forall classes tbl t,
+  dispatch classes tbl = Some t <->
+  exists pre c post, classes = pre ++ c :: post /\ assoc_case c tbl = Some t /\
+                     Forall (fun a => assoc_case a tbl = None) pre.
+Proof. exact dispatch_nearest_ancestor. Qed.
+Print Assumptions C02_dispatch_nearest_ancestor.
